@@ -19,16 +19,17 @@ def build(rng, perm, refs, L, rebind, shared):
     for i in order:
         first = i not in seen_first
         seen_first.add(i)
-        kind, tgt = refs[i]
-        t = absent if tgt == 'absent' else aids_[tgt]
+        rl = refs[i] if isinstance(refs[i], list) else [refs[i]]     # one or several references per action
         conds = []
         mods = []
         if first:
             conds.append(c_script('KExplicit', [CYCLE[(k + 3 * i) % len(CYCLE)] for k in range(L + 2)]))
-            if kind == 'chord': conds.append('(c_chord %d)' % t)
-            elif kind == 'block': conds.append('(c_block_by %d false)' % t)
-            elif kind == 'block-events': conds.append('(c_block_by %d true)' % t)
-            elif kind == 'accumulate': mods.append('(m_accumulate %d)' % t)
+            for kind, tgt in rl:
+                t = absent if tgt == 'absent' else aids_[tgt]
+                if kind == 'chord': conds.append('(c_chord %d)' % t)
+                elif kind == 'block': conds.append('(c_block_by %d false)' % t)
+                elif kind == 'block-events': conds.append('(c_block_by %d true)' % t)
+                elif kind == 'accumulate': mods.append('(m_accumulate %d)' % t)
             mods.append(PROBE)
             binds = [bind(ids, key(i % 4), [PROBE], [c_script('KImplicit', [rng.choice(STATES) for _ in range(L + 2)])] if rng.random() < .3 else [])]
         else:
@@ -65,10 +66,20 @@ def cases(tier, rng):
             tgt = {'earlier': 0, 'later': 2, 'self': 1, 'absent': 'absent'}[direction]
             refs[i] = (kind, tgt)
             yield (build(rng, (0, 1, 2), refs, 10, None, False), 'reference-%s-%s' % (kind, direction))
+    # several references on one action: two blockers (events-only / plain, in both orders) looking at different actions,
+    # so that in some frames only the first-listed one is blocking
+    for k1, k2 in itertools.product(('block', 'block-events'), repeat=2):
+        for t1, t2 in ((0, 1), (1, 0), (0, 3), (3, 0)):
+            refs = [('none', 0), ('none', 0), [(k1, t1), (k2, t2)], ('none', 0)]
+            for perm in ((0, 1, 2, 3), (2, 0, 1, 3), (0, 2, 3, 1)):
+                yield (build(rng, perm, refs, 12, None, False), 'two-blockers')
     for _ in range(1000 if tier == 'thorough' else 100):
         n = rng.randint(2, 4)
         perm = list(range(n)); rng.shuffle(perm)
         refs = [(rng.choice(REFK), rng.choice(list(range(n)) + ['absent'])) for _ in range(n)]
+        for i in range(n):
+            if rng.random() < .35:
+                refs[i] = [refs[i], (rng.choice(REFK[:4]), rng.choice(list(range(n)) + ['absent']))]
         yield (build(rng, perm, refs, rng.randint(4, 12), (rng.randint(1, n), rng.randrange(n)) if rng.random() < .4 else None, rng.random() < .3), 'random')
 
 def nontrivial(case, out):
@@ -77,13 +88,16 @@ def nontrivial(case, out):
 STAGES = [dict(name='visibility', mode='app', coq='Check.C13c', cases=cases, nontrivial=nontrivial, shard=25,
                exhaustive={'thorough': True, 'quick': True},
                rule='one context (exclusive, or shared with two holders) with 2-4 actions in every binding order (6 / 24 permutations), chord / block-by / events-only block-by / accumulate-by references '
-                    'forwards, backwards, to self and to an action absent from the context, some action bound a second time in the middle; scripted states over 6-12 frames. Every instrumented condition and '
+                    'forwards, backwards, to self and to an action absent from the context, some action bound a second time in the middle, actions with two references (two blockers looking at different actions); scripted states over 6-12 frames. Every instrumented condition and '
                     'modifier records the states of all actions it is shown. non-trivial = a cross-action reference present and some Fired state; distinct = distinct scenario text')]
 CLAUSES = {1: 'a condition/modifier was shown a state other than: current frame for earlier-bound actions, previous frame for later-bound ones and the action itself',
            2: 'the set of actions visible to a condition is not the set of actions of the context', 3: 'Chord did not return the referenced action\'s shown state (None if absent)',
            4: 'BlockBy did not return None exactly while the referenced action is shown as Fired', 5: 'actions were not evaluated in the order of their first binding',
+           6: 'AccumulateBy did not return the running sum exactly while the referenced action is shown as Fired (the plain input otherwise)',
+           7: 'events-only BlockBy: events were delivered although a referenced action was shown as Fired, or withheld although none was',
+           11: 'a BlockBy whose referenced action is shown as Fired did not force the action to None',
            8: 'panic', 9: 'malformed trace', 10: 'panic'}
 def describe(stage, clause): return CLAUSES.get(clause, 'clause %d' % clause)
 def matches_known(k, case, verdict): return False
 TRUSTED = TRUSTED_BASE + ['ActionsData read by the wrappers through its public map (HashMap iteration order is not relied on: entries are sorted)']
-ASSUMES = ['AccumulateBy values are judged by C18 and by the full comparison with the model run']
+ASSUMES = ['block-by and accumulate-by references are attached at action level in this profile; the event clause applies to actions whose only events-only blockers are those']
